@@ -4,7 +4,7 @@ package main
 //
 //	MTLSREF_REPRO=<name> /verif/bin/mtlsref
 //
-// names: ambient-port-disable, ambient-port-strict, ambient-ns-unset, ambient-tie, cds-ns-disable, all.
+// names: ambient-port-disable, ambient-port-strict, ambient-ns-unset, ambient-emptysel, ambient-tie, cds-ns-disable, all.
 // Each builds the smallest world showing the finding in a fake istiod and prints, per workload port,
 // the reference mode next to what each consumer does.
 
@@ -66,6 +66,17 @@ var reproWorlds = map[string]func() (*World, string){
 			}, "namespace DISABLE, workload policy STRICT. The server sidecar demands mutual TLS and EDS marks the endpoint tlsMode=istio, but the client's cluster is built from " +
 				"PushContext.BestEffortInferServiceMTLSMode (namespace/mesh level only): DISABLE => no tlsMode-istio transport socket match => the client sends plaintext to a STRICT port. " +
 				"The code documents this as best effort."
+	},
+	"ambient-emptysel": func() (*World, string) {
+		return &World{
+				NS: []NSWorld{{NS: "app", Policies: []Policy{
+					{Name: "ns", NS: "app", TS: 1700000001, Mode: STRICT, EmptySel: true},
+					{Name: "wl", NS: "app", TS: 1700000002, Selector: map[string]string{"app": "a"}, NilMtls: true, Ports: map[uint32]Mode{9090: PERMISSIVE}},
+				}}},
+			}, "namespace policy STRICT written with 'selector: {}' (validation, the sidecar path and ambient's convertedSelectorPeerAuthentications all take an empty matchLabels as namespace-level); " +
+				"workload policy without mode and portLevelMtls 9090: PERMISSIVE. Every port but 9090 must refuse plaintext. policies.go PolicyCollections indexes namespace-level policies by " +
+				"`Spec.GetSelector() == nil`, so convertPeerAuthentication is given no namespace policy, finds nothing STRICT to carve the exception out of and returns nil, while the workload " +
+				"already swapped the static strict policy for a reference to converted_peer_authentication_wl => whole workload unprotected."
 	},
 	"ambient-tie": func() (*World, string) {
 		return &World{
